@@ -900,15 +900,19 @@ _compressCleanup:
 /**
  * Initialize the `COVER_best_t`.
  */
-void COVER_best_init(COVER_best_t *best) {
-  if (best==NULL) return; /* compatible with init on NULL */
-  (void)ZSTD_pthread_mutex_init(&best->mutex, NULL);
-  (void)ZSTD_pthread_cond_init(&best->cond, NULL);
+int COVER_best_init(COVER_best_t *best) {
+  if (best==NULL) return 0; /* compatible with init on NULL */
+  if (ZSTD_pthread_mutex_init(&best->mutex, NULL)) return 1;
+  if (ZSTD_pthread_cond_init(&best->cond, NULL)) {
+    ZSTD_pthread_mutex_destroy(&best->mutex);
+    return 1;
+  }
   best->liveJobs = 0;
   best->dict = NULL;
   best->dictSize = 0;
   best->compressedSize = (size_t)-1;
   memset(&best->parameters, 0, sizeof(best->parameters));
+  return 0;
 }
 
 /**
@@ -1224,7 +1228,10 @@ ZDICTLIB_STATIC_API size_t ZDICT_optimizeTrainFromBuffer_cover(
     }
   }
   /* Initialization */
-  COVER_best_init(&best);
+  if (COVER_best_init(&best)) {
+    POOL_free(pool);
+    return ERROR(memory_allocation);
+  }
   /* Turn down global display level to clean up display at level 2 and below */
   g_displayLevel = displayLevel == 0 ? 0 : displayLevel - 1;
   /* worker threads must not run the display throttle : its timestamp is a global shared with this thread */
